@@ -94,7 +94,12 @@ pub fn copy_timestamps(infd: &File, outfd: &File) -> Result<()> {
 
 pub fn copy_owner(infd: &File, outfd: &File) -> Result<()> {
     let inmeta = infd.metadata()?;
-    fchown(outfd, Some(inmeta.uid()), Some(inmeta.gid()))?;
+    let outmeta = outfd.metadata()?;
+    // chown() clears the set-user-ID and set-group-ID bits even when
+    // it changes nothing.
+    if (outmeta.uid(), outmeta.gid()) != (inmeta.uid(), inmeta.gid()) {
+        fchown(outfd, Some(inmeta.uid()), Some(inmeta.gid()))?;
+    }
 
     Ok(())
 }
